@@ -8,7 +8,7 @@ Tie to the code (model: coq/theories/Artifact.v, theorems: coq/props/C19.v):
                   operation, remove, replace and at the end - otherwise the operation's key and one more).  The Coq
                   model must reproduce every observation (key lists as multisets, loaded values as content ids).
   stream `filt` : a table written through Artifact.write and loaded through Artifact(path, filter_terms).load;
-                  observed: which stored rows come back.
+                  observed: which stored rows come back, and (draw filter `draw == n` / `draw in [...]`) which columns.
 Direct oracle (independent of the model): a plain python dict key -> last written value; after every operation
 keys == reserved + dict keys (no duplicates) == file keys == second artifact's keys, every load == dict value
 (canonical form: frames with index names / index values / columns / dtypes / cells, JSON values by their JSON text),
@@ -53,19 +53,25 @@ CLAIM = {
             "/repo: 4bbd9e87, 29349355, 4cf26c03, d4f70230; their witnesses are corpus cases). Trusted: the model's transcription, "
             "HDF5/PyTables/pandas behaviour as modelled (validated on the explored sequences only), canonicalisation of "
             "loaded data, single writer per file, re-writing loaded old data reproduces the node (replace's restore). "
-            "Content of load('metadata.keyspace') and the draw-column filter are not modelled; returned objects are the "
-            "cached ones (aliasing not covered).",
+            "Content of load('metadata.keyspace') is not modelled; returned objects are the cached ones (aliasing not "
+            "covered); the draw filter is modelled as column selection (C19_draw_filter_columns), malformed draw terms are "
+            "refused at construction and not generated.",
 }
-RULE = ("ops: sequences of 3-10 (quick) / 3-25 (thorough) operations over a pool of 5-8 two- and three-part keys (two-part "
+RULE = ("ops: 45% of the cases start with 2-4 sibling keys in ONE hdf group (/type/name, /type or /metadata), mostly JSON "
+        "values, followed by remove / replace of one of them and loads of the survivors; then / otherwise "
+        "sequences of 3-10 (quick) / 3-25 (thorough) operations over a pool of 5-8 two- and three-part keys (two-part "
         "keys that are prefixes of three-part keys included) + the reserved key + a key below the reserved node + "
         "malformed keys; data: multi-index frames with mixed dtypes, single-index frames, Series, empty indexed frames, "
         "JSON values (nested, tuples, int-keyed dicts), None, unserialisable values, empty frames without index, frames "
         "with object cells (put fails); clear_cache / re-open at random points; second artifact "
         "after every operation. filt: 1-3 integer / string index levels, 3-12 rows, 0-4 terms (atoms, &, |) over index "
-        "levels, value columns and absent columns, also on empty indexed frames. distinct = distinct case JSON; trivial = "
+        "levels, value columns and absent columns, also on empty indexed frames; 35% with one draw term (==, =, in) over "
+        "frames with a random subset of draw_0..draw_3 / value / other columns. distinct = distinct case JSON; trivial = "
         "no accepted write")
 ASSUMPTIONS = [
     "one writer per file: the second Artifact opened after every operation only reads",
+    "draw filters: one term `draw ==|=|in ...` per artifact (two draw terms / other comparisons are refused when the "
+    "Artifact is constructed, before any load - not generated)",
     "hdf.load o hdf.write is the identity on the data shapes generated (checked on every load of every case: the "
     "content id loaded must equal the id written, for JSON values the id of json.loads(json.dumps(v)))",
     "the queryable columns of a stored table are read off the file with PyTables (node.table.colnames) by the harness",
@@ -78,7 +84,7 @@ TRUSTED = [
     "replace/clear_cache, hdf.get_keys)",
 ]
 LEVEL_NOTE = ("Full for the key / cache / file state machine, all keys / data / histories (no guards). Content of the reserved "
-              "node when loaded, draw-column filters and aliasing of returned (cached) objects are outside the model.")
+              "node when loaded and aliasing of returned (cached) objects are outside the model.")
 
 RESERVED = "metadata.keyspace"
 _TMP = None
@@ -275,6 +281,19 @@ def gen_pool(rng):
     return sorted(pool)
 
 
+def gen_group_keys(rng):
+    """3-4 keys that live in ONE hdf group: /type/name (three-part keys), /type (two-part keys) or /metadata (next to the
+    keyspace node, which is removed and re-written on every accepted write / remove)"""
+    r = rng.random()
+    if r < 0.4:
+        t, n = rng.choice(TYPES), rng.choice(["flu", "tb"])
+        return [f"{t}.{n}.{m}" for m in rng.sample(["incidence", "prevalence", "structure", "restrictions", "name"], rng.randint(3, 4))]
+    if r < 0.75:
+        t = rng.choice(TYPES)
+        return [f"{t}.{m}" for m in rng.sample(["structure", "theta", "age_bins", "locations", "versions"], rng.randint(3, 4))]
+    return [f"metadata.{m}" for m in rng.sample(["versions", "locations", "notes", "source"], rng.randint(2, 3))]
+
+
 def gen_ops(rng, tier_max):
     pool = gen_pool(rng)
     n = rng.randint(3, tier_max)
@@ -296,6 +315,31 @@ def gen_ops(rng, tier_max):
         if absent:
             return rng.choice(absent)
         return rng.choice(pool)
+
+    if rng.random() < 0.45:
+        # siblings in one hdf group, most of them JSON values; then one of them is removed / replaced and the survivors
+        # are loaded (the full observation after remove / replace loads every key used so far through a fresh artifact)
+        group = gen_group_keys(rng)
+        pool = sorted(set(pool) | set(group))
+        p_json = rng.choice([1.0, 1.0, 0.8, 0.5])
+        for k in group:
+            d = {"t": "json", "v": gen_json(rng) if rng.random() < 0.7 else [rng.randint(0, 9)]} if rng.random() < p_json else gen_good_data(rng)
+            if kind_of(d) == "N":
+                d = {"t": "json", "v": 0}
+            ops.append({"op": "write", "key": k, "data": d})
+            present.add(k)
+        if rng.random() < 0.3:
+            ops.append({"op": rng.choice(["reopen", "clear"])})
+        for _ in range(rng.randint(1, 2)):
+            victim = rng.choice(group)
+            if rng.random() < 0.5:
+                ops.append({"op": "remove", "key": victim})
+                present.discard(victim)
+            else:
+                ops.append({"op": "replace", "key": victim, "data": gen_good_data(rng) if rng.random() < 0.8 else gen_data(rng)})
+            for k in rng.sample(group, rng.randint(1, 2)):
+                ops.append({"op": "load", "key": k})
+        n = max(0, n - len(ops))
 
     for _ in range(n):
         r = rng.random()
@@ -345,6 +389,20 @@ REPAIRED_CASES = [
              {"op": "replace", "key": "x.z", "data": {"t": "badframe"}}, {"op": "load", "key": "x.z"}], "obs_seed": 3},
     {"ops": [{"op": "write", "key": "x.y", "data": {"t": "badframe"}}, {"op": "write", "key": "x.y", "data": {"t": "json", "v": 5}},
              {"op": "write", "key": "x.q.r", "data": {"t": "badframe"}}, {"op": "write", "key": "x.q.r", "data": FRAME12}], "obs_seed": 4},
+    # siblings in one hdf group survive the removal / replacement of one of them (seeded change C19_a)
+    {"ops": [{"op": "write", "key": "cause.measles.name", "data": {"t": "json", "v": "measles"}},
+             {"op": "write", "key": "cause.measles.sequelae", "data": {"t": "json", "v": ["a", "b"]}},
+             {"op": "write", "key": "cause.measles.restrictions", "data": {"t": "json", "v": {"male_only": False}}},
+             {"op": "replace", "key": "cause.measles.restrictions", "data": {"t": "json", "v": {"male_only": True}}},
+             {"op": "load", "key": "cause.measles.sequelae"}, {"op": "remove", "key": "cause.measles.name"},
+             {"op": "load", "key": "cause.measles.sequelae"}], "obs_seed": 9},
+    {"ops": [{"op": "write", "key": "metadata.versions", "data": {"t": "json", "v": {"v": 1}}},
+             {"op": "write", "key": "metadata.locations", "data": {"t": "json", "v": ["Kenya"]}},
+             {"op": "write", "key": "pop.structure", "data": FRAME12}, {"op": "load", "key": "metadata.versions"},
+             {"op": "remove", "key": "metadata.locations"}, {"op": "load", "key": "metadata.versions"}], "obs_seed": 10},
+    {"ops": [{"op": "write", "key": "pop.theta", "data": {"t": "json", "v": 1}}, {"op": "write", "key": "pop.age_bins", "data": {"t": "json", "v": [0, 5]}},
+             {"op": "write", "key": "pop.structure", "data": FRAME12}, {"op": "remove", "key": "pop.structure"},
+             {"op": "load", "key": "pop.theta"}, {"op": "load", "key": "pop.age_bins"}], "obs_seed": 11},
     # d4f70230: an empty group /t/n left behind must not block the JSON write of t.n
     {"ops": [{"op": "write", "key": "t.n.m", "data": {"t": "json", "v": [1]}}, {"op": "remove", "key": "t.n.m"},
              {"op": "write", "key": "t.n", "data": {"t": "json", "v": [2]}}, {"op": "load", "key": "t.n"}], "obs_seed": 6},
@@ -613,7 +671,13 @@ def gen_filt(rng):
         if len(rows) == n:
             break
     terms = [gen_term(rng, levels) for _ in range(rng.choice([0, 1, 1, 2, 2, 3, 4]))]
-    return {"levels": levels, "rows": rows, "terms": terms, "empty": rng.random() < 0.2,
+    draw = None
+    if rng.random() < 0.35:          # one draw term: selects the columns draw_n (+ value), never rows
+        form = rng.choice(["==", "=", "in"])
+        draw = {"form": form, "draws": rng.sample([0, 1, 2, 3, 7], rng.randint(1, 3) if form == "in" else 1), "pos": rng.randint(0, len(terms))}
+    value_cols = ["rid"] + rng.sample(["draw_0", "draw_1", "draw_2", "draw_3", "value", "other"], rng.randint(1, 5))
+    rng.shuffle(value_cols)
+    return {"levels": levels, "rows": rows, "terms": terms, "empty": rng.random() < 0.2, "draw": draw, "value_cols": value_cols,
             "key": rng.choice(["pop.structure", "cause.flu.incidence"])}
 
 
@@ -647,8 +711,14 @@ def run_filt(case):
     if case["empty"]:
         df = pd.DataFrame(index=idx)
     else:
-        df = pd.DataFrame({"rid": list(range(len(rows))), "value": [0.5 * i for i in range(len(rows))]}, index=idx)
+        vcols = case.get("value_cols") or ["rid", "value"]
+        df = pd.DataFrame({c: (list(range(len(rows))) if c == "rid" else [0.5 * i + j for i in range(len(rows))])
+                           for j, c in enumerate(vcols)}, index=idx)
     strs = [term_str(t) for t in terms]
+    draw = case.get("draw")
+    if draw:
+        dstr = (f"draw in [{','.join(map(str, draw['draws']))}]" if draw["form"] == "in" else f"draw {draw['form']} {draw['draws'][0]}")
+        strs.insert(min(draw["pos"], len(strs)), dstr)
     ok, msg = True, ""
     try:
         Artifact(path).write(case["key"], df)
@@ -672,7 +742,7 @@ def run_filt(case):
         ok, msg = False, f"unfiltered load returned rows {full_t}, written {tuples}"
     pos_of = {t: i for i, t in enumerate(tuples)}
     positions = [pos_of.get(t, -1) for t in got_t]
-    if not case["empty"] and positions != [int(x) for x in got["rid"].tolist()]:
+    if not case["empty"] and "rid" in got.columns and positions != [int(x) for x in got["rid"].tolist()]:
         ok, msg = False, "returned index rows and returned value cells do not belong together"
     # direct oracle: sub-sequence + exactly the rows satisfying every term over queryable columns
     if any(p < 0 for p in positions) or positions != sorted(set(positions)):
@@ -684,6 +754,15 @@ def run_filt(case):
     want = [i for i, r in enumerate(rows) if all(term_eval(t, dict(zip(levels, r))) for t in valid)]
     if ok and positions != want:
         ok, msg = False, f"filter terms {strs} on rows {tuples}: returned positions {positions}, the terms select {want}"
+    # the draw filter: columns, never rows
+    stored_cols = [] if case["empty"] else [str(c) for c in full.columns]
+    got_cols = [str(c) for c in got.columns]
+    request = None if not draw else [f"draw_{n}" for n in draw["draws"]] + ["value"]
+    want_cols = stored_cols if request is None else [c for c in stored_cols if c in request]
+    if sorted(got_cols) != sorted(want_cols):
+        ok, msg = False, f"filter terms {strs}: columns returned {got_cols}, stored {stored_cols}, requested {request}"
+    if any(c not in stored_cols for c in got_cols):
+        ok, msg = False, f"filter terms {strs} returned columns {got_cols} that were never stored ({stored_cols})"
     cid = Interner(1)
     sval = {"Female": 1, "Male": 2, "Other": 3}
 
@@ -695,9 +774,12 @@ def run_filt(case):
             return f"(TAtom {cz(cid(t[1]))} {OPS[t[2]]} {cz(cell(t[3]))})"
         return f"({'TAnd' if t[0] == 'and' else 'TOr'} {cterm(t[1])} {cterm(t[2])})"
     qpos = [levels.index(l) for l in queryable]
+    colid = Interner(1)
     coq = "(" + cpair(czlist(cid(l) for l in queryable), clist(czlist(cell(r[j]) for j in qpos) for r in rows),
-                      clist(cterm(t) for t in terms), czlist(positions)) + " : filt_case)"
-    tags = (f"terms{len(terms)}", f"valid{len(valid)}", f"levels{len(levels)}", "empty_frame" if case["empty"] else "frame",
+                      clist(cterm(t) for t in terms), czlist(positions),
+                      cpair(czlist(colid(c) for c in stored_cols), copt(request, lambda r: czlist(colid(c) for c in r)),
+                            czlist(colid(c) for c in got_cols))) + " : filt_case)"
+    tags = ("draw_filter" if draw else "no_draw_filter", f"terms{len(terms)}", f"valid{len(valid)}", f"levels{len(levels)}", "empty_frame" if case["empty"] else "frame",
             "all_rows" if len(want) == len(rows) else ("no_rows" if not want else "some_rows"))
     return Result(ok=ok, msg=msg, coq=coq, key=json.dumps(case, sort_keys=True) if terms else None,
                   obs={"terms": strs, "returned": positions, "of": len(rows)}, tags=tags)
@@ -711,6 +793,14 @@ def corpus_filt():
          "terms": [["atom", "sex", "==", "Male"], ["atom", "value", ">", 100]]},
         {"levels": ["age"], "rows": [[0], [1], [2]], "empty": False, "key": "pop.structure", "terms": [["atom", "rid", "==", 1]]},
         {"levels": ["age"], "rows": [[0], [1], [2]], "empty": False, "key": "pop.structure", "terms": [["atom", "age", ">=", 9]]},
+        # draw filters: column selection only
+        {"levels": ["age", "year"], "rows": [[0, 2000], [1, 2000], [1, 2005]], "empty": False, "key": "pop.structure",
+         "value_cols": ["draw_0", "draw_1", "draw_2", "value", "rid"], "draw": {"form": "in", "draws": [0, 2], "pos": 0},
+         "terms": [["atom", "age", ">", 0]]},
+        {"levels": ["age", "year"], "rows": [[0, 2000], [1, 2000], [1, 2005]], "empty": False, "key": "pop.structure",
+         "value_cols": ["draw_0", "other", "rid"], "draw": {"form": "==", "draws": [7], "pos": 1}, "terms": [["atom", "year", "==", 2000]]},
+        {"levels": ["age", "year"], "rows": [[0, 2000], [1, 2000]], "empty": True, "key": "pop.structure",
+         "value_cols": [], "draw": {"form": "=", "draws": [1], "pos": 0}, "terms": []},
     ]
 
 
